@@ -270,6 +270,24 @@ def install() -> None:
     grpc_client.uuid = uuid_shim
     grpc_servicer.threading = threading_shim
 
+    # protobuf (upb) map fields iterate in an order that depends on heap addresses, i.e. on
+    # the allocation history of the interpreter: pin the order of the dicts of trials read
+    # through the proxy (sorted by key).  The loss of the suggestion order itself is a
+    # finding of C09, which installs its own plan-seeded order on top of this.
+    _orig_from_proto = grpc_servicer._from_proto_trial
+
+    def _from_proto_trial_sorted(trial: Any) -> Any:
+        t = _orig_from_proto(trial)
+        if SIM is not None:
+            t.params = {k: t.params[k] for k in sorted(t.params)}
+            t.distributions = {k: t.distributions[k] for k in sorted(t.distributions)}
+            t.user_attrs = {k: t.user_attrs[k] for k in sorted(t.user_attrs)}
+            t.system_attrs = {k: t.system_attrs[k] for k in sorted(t.system_attrs)}
+            t.intermediate_values = {k: t.intermediate_values[k] for k in sorted(t.intermediate_values)}
+        return t
+
+    grpc_servicer._from_proto_trial = _from_proto_trial_sorted
+
     _heartbeat.Thread = _SimThreadFactory
     _heartbeat.Event = _SimEventFactory
 
